@@ -156,11 +156,11 @@ Section Body2.
 End Body2.
 
 (* ------------------------------------------------------------------------------------------ header and whole file *)
-Definition first_text (t : epoch_t) : string :=
+Definition first_text2 (t : epoch_t) : string :=
   time_text (ep_y t) (ep_mo t) (ep_d t) (ep_h t) (ep_mi t) (dec_value (ep_s7 t) 7).
 
 Definition hdr_state2 (f : file2) : st :=
-  {| meta := [("marker_name", MStr (f2_marker f)); ("time_sys", MStr "GPS"); ("time_first_obs", MStr (first_text (f2_first f)))];
+  {| meta := [("marker_name", MStr (f2_marker f)); ("time_sys", MStr "GPS"); ("time_first_obs", MStr (first_text2 (f2_first f)))];
      pos := None; types_all := f2_types f; num_types := Some (Z.of_nat (List.length (f2_types f))); sys_types := []; hsys := None;
      rows := [] |}.
 
@@ -196,7 +196,7 @@ Definition final_state2 (rate : option Q) (f : file2) : st :=
 
 Lemma finish_v2_ext s s' : meta s = meta s' -> pos s = pos s' -> types_all s = types_all s' -> rows s = rows s' ->
   finish_v2 s = finish_v2 s'.
-Proof. intros H1 H2 H3 H4. unfold finish_v2. rewrite H1, H2, H3, H4. reflexivity. Qed.
+Proof. intros H1 H2 H3 H4. unfold finish_v2, meta_str. rewrite H1, H2, H3, H4. reflexivity. Qed.
 
 Lemma run_obs_cont2 step endm l s : run_obs step endm l s cache0 = cont2 step endm l s cache0.
 Proof. destruct l as [|x r]; [reflexivity|]. cbn [cont2]. destruct (endm (x ++ nlc)); reflexivity. Qed.
@@ -220,7 +220,8 @@ Lemma rinex2_rows_l rate f : file2_ok f -> file_rows2 rate f <> [] ->
             o_rows r = file_rows2 rate f /\
             Forall (fun col => List.length (snd col) = List.length (o_rows r)) (o_obs r).
 Proof.
-  intros Ok Ne. rewrite (rinex2_file_roundtrip_l rate f Ok). unfold finish_v2, final_state2. cbn [rows types_all meta pos].
+  intros Ok Ne. rewrite (rinex2_file_roundtrip_l rate f Ok). unfold finish_v2.
+  change (meta_str "time_sys" (final_state2 rate f)) with (Some "GPS"). unfold final_state2. cbn [rows types_all meta pos].
   rewrite rev_involutive. destruct (file_rows2 rate f) as [|r0 rs] eqn:E; [contradiction|].
   eexists. split; [reflexivity|]. cbn [o_rows o_obs]. split; [reflexivity|].
   apply Forall_forall. intros col Hc. apply in_map_iff in Hc. destruct Hc as [t [Et _]]. subst col. cbn [snd].
